@@ -2,6 +2,7 @@ package main
 
 import (
 	"fmt"
+	"strings"
 
 	"github.com/weedbox/pokerface"
 )
@@ -20,6 +21,15 @@ func sgn(x int64) int {
 // C11 — offered actions fit the situation and do what they say
 
 type C11Mon struct{ BaseMon }
+
+// a seat that is to act but is offered nothing at all is not "always offered all-in"
+func (m *C11Mon) Stuck(h *Hand, why string) {
+	if strings.HasPrefix(why, "no-actions") {
+		h.Fail("C11/nothing-offered", opCause(h.lastOp()), why)
+		return
+	}
+	h.Rep.Inc("hands_stuck")
+}
 
 func (m *C11Mon) Wait(h *Hand, s *pokerface.GameState) {
 	if s.Status.CurrentEvent != "RoundStarted" {
